@@ -684,6 +684,8 @@ pub struct Config {
     pub split_target: usize,
     /// kinds that are listed as known findings: they never stop a stop-on-first-violation run
     pub known_kinds: Vec<String>,
+    /// kind prefixes that belong to the property being checked (others are left to their own check and never stop a run)
+    pub accept: Vec<String>,
 }
 
 #[derive(Clone, Debug)]
@@ -866,7 +868,7 @@ impl<'a> Worker<'a> {
                     oplog: res.oplog[..cand.at_op.min(res.oplog.len())].to_vec(),
                     count: 1,
                 };
-                if std::env::var("SYMX_STOP_ON_VIOLATION").is_ok() && !self.cfg.known_kinds.contains(&f.kind) {
+                if std::env::var("SYMX_STOP_ON_VIOLATION").is_ok() && !self.cfg.known_kinds.contains(&f.kind) && self.cfg.accept.iter().any(|a| f.kind.starts_with(a.as_str())) {
                     // (seed regression: one confirmed violation is enough)
                     self.stop.store(true, Ordering::Relaxed);
                 }
